@@ -18,6 +18,11 @@ mutators, parameter assignments and evaluations, and about ANY semantics `sem` o
                         the two defects of the tree as found, each on a concrete short history;
 * `stale_unwatched_counterexample`  an evaluator missing from the canary's list goes stale although every
                         mutator trips (the `evalsWatched` hypothesis is needed).
+* `two_instance_noninterference`, `never_stale_pair`, `never_stale_pair_source`
+                        two live instances, any interleaving of operations addressed to either: with one flag store per
+                        canary object nothing done to one instance changes an observation of the other;
+* `shared_store_stale_counterexample`  with ONE store shared by all canaries (class-level dict updated in place) the
+                        other instance's compile marks a just-modified model's evaluator up to date.
 -/
 import Pygom.Lemmas.Canary
 
@@ -176,6 +181,64 @@ theorem fresh_after_add_param_patched :
 
 /-- the variants as found are not `Good` -/
 theorem asFound_not_good : ¬ Good asFoundCfg := fun h => absurd h.decl (by decide)
+
+/-! ### two live instances -/
+
+/-- **Two-instance non-interference.**  With one flag store per canary object (`shared = false`: `trip()` rebinds
+`self._states`), in EVERY interleaving of operations addressed to two live instances, what instance A observes is
+exactly what it observes when its own operations are run alone, and the same for B: operations on the other
+instance (mutators, parameter assignments, evaluations - e.g. a reference model evaluating the same evaluator
+between a mutation and the re-evaluation) never change an observation.  Any source variant. -/
+theorem two_instance_noninterference (cfg : Cfg) (p : PState) (ops : List (Who × Op)) :
+    obsOf .A (prun cfg false p ops) = run cfg p.a (opsOf .A ops) ∧
+    obsOf .B (prun cfg false p ops) = run cfg p.b (opsOf .B ops) := obsOf_prun cfg ops p
+
+/-- **C08 for two live instances** (per-instance flag stores, a `Good` variant): every evaluation by either instance,
+in any interleaving, returns what a freshly constructed model with that instance's current definition and parameter
+values returns. -/
+theorem never_stale_pair {V} (cfg : Cfg) (hg : Good cfg) (sem : Sem V) (dA dB : ModelDef) (pvA pvB : List Rat)
+    (ops : List (Who × Op)) (hw : ∀ wo ∈ ops, ∀ e x t, wo.2 = Op.evaluate e x t → cfg.watched e = true) :
+    ∀ wo ∈ prun cfg false (pinit cfg dA pvA dB pvB) ops,
+      wo.2.value sem = freshValue cfg sem wo.2.cur wo.2.pvals wo.2.ev wo.2.x wo.2.t := by
+  intro wo hwo
+  obtain ⟨w, o⟩ := wo
+  have hm := mem_obsOf hwo
+  obtain ⟨hA, hB⟩ := two_instance_noninterference cfg (pinit cfg dA pvA dB pvB) ops
+  cases w with
+  | A =>
+    rw [hA] at hm
+    exact never_stale cfg hg sem dA pvA (opsOf .A ops) (evalsWatched_opsOf cfg .A ops hw) o hm
+  | B =>
+    rw [hB] at hm
+    exact never_stale cfg hg sem dB pvB (opsOf .B ops) (evalsWatched_opsOf cfg .B ops hw) o hm
+
+/-- the same for the source as modelled (`sourceCfg`, `sourceShared = false`), unconditionally -/
+theorem never_stale_pair_source {V} (sem : Sem V) (dA dB : ModelDef) (pvA pvB : List Rat) (ops : List (Who × Op)) :
+    ∀ wo ∈ prun sourceCfg sourceShared (pinit sourceCfg dA pvA dB pvB) ops,
+      wo.2.value sem = freshValue sourceCfg sem wo.2.cur wo.2.pvals wo.2.ev wo.2.x wo.2.t :=
+  never_stale_pair sourceCfg source_good sem dA dB pvA pvB ops (fun _ _ _ _ _ _ => rfl)
+
+/-- (instance, snapshot version, current version) of every observation -/
+def psummary (os : List (Who × Obs)) : List (Who × Nat × Nat) := os.map (fun wo => (wo.1, wo.2.used.ver, wo.2.curVer))
+
+/-- the interleaving that needs two live instances: A is evaluated, A is modified, the OTHER instance evaluates the
+same evaluator, A is evaluated again -/
+def sharedOps : List (Who × Op) :=
+  [(.A, .evaluate .ode [3] 0), (.A, .mutate (.addEvent deathEv)), (.B, .evaluate .ode [3] 0), (.A, .evaluate .ode [3] 0)]
+
+/-- **One class-level flag store shared by all canaries** (`shared = true`: a `trip()` that updates `self._states` in
+place): although every mutator trips and every evaluator is watched (`Cfg.simulate` is `Good`), B's compile of `ode`
+resets the one shared flag and A's last evaluation runs the closure compiled from definition version 0 while A's
+definition is at version 1.  The hypothesis `shared = false` of `two_instance_noninterference` / `never_stale_pair`
+cannot be dropped. -/
+theorem shared_store_stale_counterexample :
+    psummary (prun Cfg.simulate true (pinit Cfg.simulate d1 [1] d1 [1]) sharedOps) = [(.A, 0, 0), (.B, 0, 0), (.A, 0, 1)] := by
+  decide
+
+/-- the same interleaving with per-instance stores is fresh -/
+theorem per_instance_store_fresh :
+    psummary (prun Cfg.simulate false (pinit Cfg.simulate d1 [1] d1 [1]) sharedOps) = [(.A, 0, 0), (.B, 0, 0), (.A, 1, 1)] := by
+  decide
 
 /-! ### non-vacuity -/
 
